@@ -26,7 +26,10 @@ META = {
         "day number and every valid date (no range bound), second-of-day and datetime<->microsecond round trips, GPS "
         "week/seconds (no bound on the week), exact round trips of mjd / gps seconds / Julian year / decimal year over Q, "
         "parse(render)=truncation-to-grid for the six text formats, half-integer/[0,1)/sum invariant of the jd split for "
-        "all rationals, agreement of all formats within their resolution.  Constants, strftime patterns, the format "
+        "all rationals, agreement of all formats within their resolution, one round-trip statement for all 13 formats "
+        "(format_roundtrip_all), element-wise (pointwise) semantics of the array forms and scalar/length-1/length-n identity "
+        "on the model, and the binary64 model of the jd split proved equal to the exact split outside the last 40 us of a "
+        "day.  Constants, strftime patterns, the format "
         "registry and the TAI-UTC rows are regenerated from the source on every run and compared with the specification "
         "by theorems.  The model is tied to the code by a correspondence check on real Time objects (every scale/format "
         "pair, scalar/list/ndarray, one- and two-part input) evaluated inside Coq on the exact doubles."),
@@ -44,7 +47,8 @@ THEOREMS = [
     "jd_split_on_grid", "gps_ws_roundtrip", "gps_ws_roundtrip_inv", "format_roundtrip_numeric",
     "format_roundtrip_decimalyear", "text_parse_render_generic", "text_format_parse_render", "text_within_resolution",
     "formats_agree", "split_spec_is_exact", "gen_constants_match_spec", "gen_patterns_match_spec",
-    "gen_formats_match_spec", "gen_utc_year_not_shorter", "c02_rounded_sum_refuted",
+    "gen_formats_match_spec", "gen_utc_year_not_shorter", "c02_rounded_sum_refuted", "c02_rounded_sum_agrees_outside",
+    "format_roundtrip_all", "pointwise", "shape_identity",
 ]
 
 REQ = "From Verif Require Import Lib.Dyadic Model.C02_Formats Gen.C02_Tables."
